@@ -33,8 +33,14 @@ class _P(Policy):
     max_depth = 3
     max_paths = 12000
 
+    vocabulary = ()      # the owner search stays a call
+
     def inline(self, fn, args, interp, path):
-        return False
+        # private helpers of the tokenizer that work on the token list (a comma step moved into a function) are part of it
+        b = interp.callee_body(fn)
+        if b is None or b["path"] in self.vocabulary or not b["path"].startswith("parser::") or b.get("public"):
+            return False
+        return any("ParsedToken<" in b["locals"][i]["ty"] and b["locals"][i]["ty"].startswith("&mut") for i in range(1, b["arg_count"] + 1))
 
     def inline_closure(self, cp, args, interp, path):
         return False
@@ -82,7 +88,9 @@ def run(ctx):
     owner = owner[0]
     where = loc(b["span"])
     names = {i: l.get("name") for i, l in enumerate(b["locals"])}
-    allp = Interp(fb, _P()).run(b, [Sym("text"), Sym("ops_in"), Sym("is_numeric")])
+    pol = _P()
+    pol.vocabulary = (owner,)
+    allp = Interp(fb, pol).run(b, [Sym("text"), Sym("ops_in"), Sym("is_numeric")])
     bad = [p for p in allp if p.status not in ("return", "loop-pruned", "unreachable")]
     if bad:
         chk.unrecognised("R08.1", "shape", "tokenizer shape not recognised: %s" % [(p.status, p.note) for p in bad][:2], where)
